@@ -63,12 +63,13 @@ let () =
         let (st, rs) = run_from !base_st (List.map parse_op ops) in
         base_st := st; base_res := rs @ !base_res; print_endline "ok"; Stdlib.flush stdout
     | _ ->
+    let full_res, line = (match words line with "sync" :: _ -> true, String.sub line 4 (String.length line - 4) | _ -> false, line) in
     let opss, obss = match String.index_opt line '#' with
       | Some k -> String.sub line 0 k, String.sub line (k + 1) (String.length line - k - 1)
       | None -> line, "?" in
     let ops = List.map parse_op (words opss) in
     let (st, rs0) = run_from !base_st ops in
-    let rs = List.rev (rs0 @ !base_res) in
+    let rs = List.rev (if full_res then rs0 @ !base_res else rs0) in
     let ((d, m), s) = st in
     print_endline ("res " ^ String.concat " " (List.map show_res rs));
     print_endline ("disk " ^ show_disk d
